@@ -117,6 +117,30 @@ fn oracle(ctx: &Ctx<'_>, stats: &mut ShardStats) -> Vec<(String, String)> {
                 let _ = std::fs::remove_dir_all(&vdir);
                 break; // one variant per program
             }
+            // the same program with its first integer literal argument replaced by one outside the 32-bit range
+            if let Some((i, lit)) = all.iter().enumerate().find(|(_, (_, l))| l.contains("first: 1") || l.contains("first: 2") || l.contains("n: 1")) {
+                let lit = &lit.1;
+                let big = lit.replacen("first: 1", "first: 3000000000", 1);
+                let big = if big == *lit { lit.replacen("first: 2", "first: 3000000000", 1) } else { big };
+                let big = if big == *lit { lit.replacen("n: 1", "n: 3000000000", 1) } else { big };
+                let mut variant = all.clone();
+                variant[i].1 = big;
+                let refs: Vec<(Option<&str>, String)> = variant.iter().map(|(e, l)| (e.as_deref(), l.clone())).collect();
+                let mut p = ctx.program.project();
+                p.files = vec![("a.ts".to_string(), crate::project::source_file(&refs))];
+                let vdir = ctx.dir.with_file_name("int-range-variant");
+                p.write_to(&vdir);
+                *stats.extra.entry("int_range_variants".into()).or_default() += 1;
+                if let Compiled::Ok(varts) = crate::driver::compile_dir(&vdir) {
+                    let vl = variant.iter().map(|l| l.1.clone()).collect::<Vec<_>>().join("\n");
+                    for (sig, what) in SCHEMA_MODEL.with(|s| check(&varts, s, &vl)) {
+                        if sig.starts_with("int-range") {
+                            fails.push((sig, format!("[variant with an integer literal outside the 32-bit range, accepted by the compiler] {what}")));
+                        }
+                    }
+                }
+                let _ = std::fs::remove_dir_all(&vdir);
+            }
             // the same program with a default value of the wrong type on its first variable (and null on a non-null one)
             if let Some((_, root)) = all.first()
                 && let Some(a) = root.find("($")
